@@ -30,9 +30,9 @@ def basis_data(g, mt):
             np.asarray(g.Get_GaussCoordinates_e_pg(mt)))
 
 
-def independent(g, mt, c, terms, coef):
+def independent(g, mt, c, terms, coef, tables=None):
     """element arrays of Σ terms, computed from the tables only (no Field / Form machinery)"""
-    N, dN, wJ, X = basis_data(g, mt)
+    N, dN, wJ, X = basis_data(g, mt) if tables is None else tables
     Ne, nPg, dim, nPe = dN.shape
     cx = coef(X[..., 0], X[..., 1], X[..., 2])
     ndof = nPe * c
@@ -118,7 +118,7 @@ def main():
                     A[i, j] += rng.randint(-2, 2) / 8
             if k % 2 == 1:
                 A[:, 0] *= -1        # mirrored mesh: every element has a negative Jacobian (Mesh.Symmetry, clockwise-numbered imports)
-            if abs(np.linalg.det(A)) > 0.4:
+            if not (abs(np.linalg.det(A)) <= 0.4):
                 M.affine(mesh, A, [0.25, -0.5, 0.0])
         g = mesh.groupElem
         res.count(f"elem:{et}")
@@ -132,6 +132,9 @@ def main():
                           ("grad.grad vs GradUGradV", BiLinearForm(lambda u, v: 2.5 * u.grad.dot(v.grad)), Operators.Bilinear.GradUGradV(g, 2.5, mt))]
                 Ans = np.array([[2.0, 0.5, 0.25], [-0.25, 1.5, 0.0], [0.75, 0.125, 1.0]])[:dim, :dim]
                 checks.append(("grad.A.grad vs GradU_A_GradV (A not symmetric)", BiLinearForm(lambda u, v: (u.grad @ Ans).dot(v.grad)), Operators.Bilinear.GradU_A_GradV(g, Ans, 1.0, mt)))
+                # a field on the right of an operator (reflected operators of Field)
+                checks.append(("-(0 - u) * v vs UV", BiLinearForm(lambda u, v: -(0.0 - u) * v), Operators.Bilinear.UV(g, 1.0, 1, mt)))
+                checks.append(("u * (2 v - v) vs UV", BiLinearForm(lambda u, v: u * (2.0 * v() - v)), Operators.Bilinear.UV(g, 1.0, 1, mt)))
                 for nm, form, builtin in checks:
                     res.case((et, str(mt), nm))
                     try:
@@ -140,13 +143,13 @@ def main():
                         res.fail(f"form raises '{nm}'", f"{type(ex).__name__}: {str(ex)[:150]}", ident)
                         continue
                     want = np.asarray(builtin)
-                    if got.shape != want.shape or np.abs(got - want).max() > 1e-10 * (1 + np.abs(want).max()):
+                    if got.shape != want.shape or not (np.abs(got - want).max() <= 1e-10 * (1 + np.abs(want).max())):
                         res.fail(f"user form differs from built-in: {nm}", f"max difference {np.abs(got - want).max() if got.shape == want.shape else 'shape ' + str(got.shape)} on {et}", ident)
                 lf = LinearForm(lambda v: 3.0 * v)
                 res.case((et, str(mt), "linear"))
                 gotF = np.asarray(lf.Integrate_e(fld))[..., 0]
                 wantF = np.asarray(Operators.Linear.V(g, 3.0, 1, mt))
-                if np.abs(gotF - wantF.reshape(gotF.shape)).max() > 1e-10 * (1 + np.abs(wantF).max()):
+                if not (np.abs(gotF - wantF.reshape(gotF.shape)).max() <= 1e-10 * (1 + np.abs(wantF).max())):
                     res.fail("user linear form differs from built-in: f*v vs Linear.V", f"max difference {np.abs(gotF - wantF.reshape(gotF.shape)).max()} on {et}", ident)
                 # random grammar forms, scalar
                 for _ in range(2 if not thorough else 4):
@@ -160,7 +163,7 @@ def main():
                         res.fail("grammar form raises (scalar)", f"{type(ex).__name__}: {str(ex)[:150]}", dict(ident, terms=[t[0] for t in terms], coef=cname))
                         continue
                     want = independent(g, mt, 1, terms, coef)
-                    if np.abs(got - want).max() > 1e-10 * (1 + np.abs(want).max()):
+                    if not (np.abs(got - want).max() <= 1e-10 * (1 + np.abs(want).max())):
                         res.fail(f"grammar form differs (scalar) terms={'+'.join(t[0] for t in terms)}", f"max difference {np.abs(got - want).max():.2e} on {et} with coefficient {cname}", dict(ident, terms=[t[0] for t in terms], coef=cname))
                 # ---------- vector field ----------
                 if dim >= 2 and g.nPe <= 15 and not (g.nPe > 10 and mt == MatrixType.mass):
@@ -172,6 +175,7 @@ def main():
                     elast = BiLinearForm(lambda u, v: (2 * mu * Sym_Grad(u) + lam * Trace(Sym_Grad(u)) * eye).ddot(Sym_Grad(v)))
                     checks = [("u.v vs UV", BiLinearForm(lambda u, v: u.dot(v)), Operators.Bilinear.UV(g, 1.0, dim, mt)),
                               ("isotropic elasticity vs LinearizedElasticity", elast, Operators.Bilinear.LinearizedElasticity(g, law.C, mt))]
+                    checks.append(("-(0 - u).v vs UV", BiLinearForm(lambda u, v: -(0.0 - u).dot(v)), Operators.Bilinear.UV(g, 1.0, dim, mt)))
                     for nm, form, builtin in checks:
                         res.case((et, str(mt), nm))
                         try:
@@ -180,7 +184,7 @@ def main():
                             res.fail(f"form raises '{nm}'", f"{type(ex).__name__}: {str(ex)[:150]}", ident)
                             continue
                         want = np.asarray(builtin)
-                        if got.shape != want.shape or np.abs(got - want).max() > 1e-9 * (1 + np.abs(want).max()):
+                        if got.shape != want.shape or not (np.abs(got - want).max() <= 1e-9 * (1 + np.abs(want).max())):
                             res.fail(f"user form differs from built-in: {nm}", f"max difference {np.abs(got - want).max() if got.shape == want.shape else 'shape ' + str(got.shape)} on {et}", ident)
                     lfv = LinearForm(lambda v: v.dot(np.arange(1, dim + 1) * 0.5))
                     gotF = np.asarray(lfv.Integrate_e(fldv))[..., 0]
@@ -190,7 +194,7 @@ def main():
                     for d in range(dim):
                         wantF[:, d::dim] = base * 0.5 * (d + 1)
                     res.case((et, str(mt), "linear-vector"))
-                    if np.abs(gotF - wantF).max() > 1e-10 * (1 + np.abs(wantF).max()):
+                    if not (np.abs(gotF - wantF).max() <= 1e-10 * (1 + np.abs(wantF).max())):
                         res.fail("user linear form differs: f.v (vector)", f"max difference {np.abs(gotF - wantF).max()} on {et}", ident)
                     for _ in range(2 if not thorough else 4):
                         cname, coef = rng.choice(coefs)
@@ -203,7 +207,7 @@ def main():
                             res.fail("grammar form raises (vector)", f"{type(ex).__name__}: {str(ex)[:150]}", dict(ident, terms=[t[0] for t in terms], coef=cname))
                             continue
                         want = independent(g, mt, dim, terms, coef)
-                        if np.abs(got - want).max() > 1e-10 * (1 + np.abs(want).max()):
+                        if not (np.abs(got - want).max() <= 1e-10 * (1 + np.abs(want).max())):
                             res.fail(f"grammar form differs (vector) terms={'+'.join(t[0] for t in terms)}", f"max difference {np.abs(got - want).max():.2e} on {et} with coefficient {cname}", dict(ident, terms=[t[0] for t in terms], coef=cname))
                     # Assemble = scatter-add
                     if mt == MatrixType.rigi:
@@ -214,7 +218,7 @@ def main():
                         for e in range(g.Ne):
                             dense[np.ix_(asm[e], asm[e])] += Ke[e]
                         res.case((et, "assemble"))
-                        if np.abs(dense - Ksp).max() > 1e-10 * (1 + np.abs(dense).max()):
+                        if not (np.abs(dense - Ksp).max() <= 1e-10 * (1 + np.abs(dense).max())):
                             res.fail("Assemble is not the scatter-add", f"max difference {np.abs(dense - Ksp).max():.2e} on {et}", ident)
                 # ---------- evaluating a field, then using it again in a form ----------
                 if mt == MatrixType.rigi and dim >= 2 and g.nPe <= 15:
@@ -232,17 +236,17 @@ def main():
                         except Exception as ex:  # noqa: BLE001
                             res.fail("Field.Evaluate_e raises", f"{type(ex).__name__}: {str(ex)[:150]}", ident)
                             continue
-                        if np.abs(ge.reshape(-1, dim, dim) - Gs).max() > 1e-9:
+                        if not (np.abs(ge.reshape(-1, dim, dim) - Gs).max() <= 1e-9):
                             res.fail("Field.Evaluate_e gradient", f"gradient of a linear field evaluated through Field.Evaluate_e (mean={mean}) is not the constant gradient", ident)
                         # the field must be usable in a form afterwards: same matrix as a fresh field
                         again = squeeze(form.Integrate_e(fe))
-                        if again.shape != fresh.shape or np.abs(again - fresh).max() > 1e-12 * (1 + np.abs(fresh).max()):
+                        if again.shape != fresh.shape or not (np.abs(again - fresh).max() <= 1e-12 * (1 + np.abs(fresh).max())):
                             res.fail("field unusable in a form after Evaluate_e", f"after Evaluate_e(returnMeanValues={mean}) the same field integrates ε(u):ε(v) to a matrix differing by {np.abs(again - fresh).max() if again.shape == fresh.shape else 'shape'} from a fresh field", ident)
                     _, _, _, Xg = basis_data(g, mt)
                     vals = np.asarray(fe.Interpolate(dofs))
                     want = np.array([1.0, -2.0, 0.5])[:dim] + Xg[..., :dim] @ Gs.T
                     res.case((et, "interpolate"))
-                    if np.abs(vals - want).max() > 1e-9:
+                    if not (np.abs(vals - want).max() <= 1e-9):
                         res.fail("Field.Interpolate", "a linear field interpolated at the Gauss points is not its value there", ident)
 
                 # ---------- correspondence ----------
@@ -269,12 +273,152 @@ def main():
                 # none of these calls may raise on a form of the grammar: an exception is a form that cannot be integrated
                 res.fail(f"form machinery raises matrixType={mt}", f"{type(ex).__name__}: {str(ex)[:200]}", dict(elemType=et, matrixType=str(mt)))
 
+    # ---------------- the same field and the same form objects used again after the mesh moved in place ----------------
+    # the tables (N, dN, wJ, x) are saved when the mesh is built; after each in-place move x -> B x + t (B, t fitted on
+    # mesh.coord) the expectation is evaluated from the transported tables  dN' = B^-T dN, wJ' = |det B| wJ, x' = B x + t
+    for et in (["TRI3", "TRI6", "QUAD4", "TETRA4"] if not thorough else ["SEG3", "TRI3", "TRI6", "QUAD4", "QUAD8", "TETRA4", "TETRA10", "HEXA8", "PRISM6"]):
+        dim = M.dim_of(et)
+        try:
+            mesh = M.mesh_of(et)
+            g = mesh.groupElem
+            X0 = np.array(mesh.coord, dtype=float)
+            Ans = np.array([[2.0, 0.5, 0.25], [-0.25, 1.5, 0.0], [0.75, 0.125, 1.0]])[:dim, :dim]
+            coef = lambda x, y, z: 2.0 + x - 0.5 * y + 0.25 * z   # noqa: E731
+            jobs = []
+            for mt in (MatrixType.rigi, MatrixType.mass):
+                saved = tuple(np.array(t, dtype=float) for t in basis_data(g, mt))
+                jobs.append((mt, 1, Field(g, 1, mt), [("gradAgrad", Ans.tolist()), ("uv", None)], saved, None))
+                if dim >= 2:
+                    lam, mu = 1.25, 0.75
+                    law = Models.Elastic.Isotropic(dim, E=mu * (3 * lam + 2 * mu) / (lam + mu), v=lam / (2 * (lam + mu)), planeStress=False)
+                    jobs.append((mt, dim, Field(g, dim, mt), [("symsym", None), ("divdiv", None), ("uv", None)], saved, None))
+                    eye = np.eye(dim)
+                    jobs.append((mt, dim, Field(g, dim, mt), None, saved, law))
+            jobs = [(mt, c, fld, terms, saved, law,
+                     user_form(c, terms, coef) if terms is not None else BiLinearForm(lambda u, v: (2 * mu * Sym_Grad(u) + lam * Trace(Sym_Grad(u)) * eye).ddot(Sym_Grad(v))))
+                    for (mt, c, fld, terms, saved, law) in jobs]
+            ax = [0.0, 0.0, 1.0] if dim < 3 else [1.0, 2.0, 2.0]
+            Bm = np.eye(3)
+            Bm[:dim, :dim] += np.array([[2.0, 0.5, 0.0], [0.0, -0.25, 0.25], [0.5, 0.0, 0.5]])[:dim, :dim]
+            moves = [("as built", lambda: None),
+                     ("mesh.coord = stretched and sheared coordinates", lambda: M.affine(mesh, Bm, [0.5, -0.25, 0.0])),
+                     ("Mesh.Rotate(35)", lambda: mesh.Rotate(35.0, (0.25, 0.5, 0.0), ax) if dim > 1 else mesh.Translate(0.75)),
+                     ("Mesh.Translate", lambda: mesh.Translate(-1.5, 0.25, 0.0))]
+            history = []
+            for mname, move in moves:
+                move()
+                history.append(mname)
+                X1 = np.asarray(mesh.coord, dtype=float)
+                # affine map of the current configuration, from the coordinates a user sees
+                sol = np.linalg.lstsq(np.c_[X0[:, :dim], np.ones(len(X0))], X1[:, :dim], rcond=None)[0]
+                B, t = sol[:dim].T, sol[dim]
+                Binv = np.linalg.inv(B)
+                for (mt, c, fld, terms, saved, law, form) in jobs:
+                    N0, dN0, wJ0, Xg0 = saved
+                    Xg = np.array(Xg0)
+                    Xg[..., :dim] = Xg0[..., :dim] @ B.T + t
+                    tables = (N0, np.einsum("lk,eplj->epkj", Binv, dN0), abs(np.linalg.det(B)) * wJ0, Xg)
+                    nm = "+".join(x[0] for x in terms) if terms is not None else "isotropic elasticity"
+                    ident = dict(elemType=et, matrixType=str(mt), dof_n=c, form=nm, history=list(history), scenario="same Field and form objects used after each in-place move of the mesh")
+                    res.case((et, str(mt), "moved", nm, mname))
+                    res.count("moved-mesh:" + mname)
+                    try:
+                        got = squeeze(form.Integrate_e(fld))
+                        Asp = form.Assemble(fld)
+                    except Exception as ex:  # noqa: BLE001
+                        res.fail("form raises on a moved mesh", f"{type(ex).__name__}: {str(ex)[:150]}", ident)
+                        continue
+                    if terms is not None:
+                        want = independent(g, mt, c, terms, coef, tables)
+                        src = "the independent evaluation on the tables transported by the affine map"
+                    else:
+                        want = independent(g, mt, c, [("symsym", None)], lambda x, y, z: 2 * mu + 0 * x, tables) + independent(g, mt, c, [("divdiv", None)], lambda x, y, z: lam + 0 * x, tables)
+                        src = "2 mu eps:eps + lam div div on the tables transported by the affine map"
+                    if got.shape != want.shape or not (np.abs(got - want).max() <= 1e-9 * (1 + np.abs(want).max())):
+                        res.fail("form on a mesh moved in place differs from the moved configuration", f"{nm} on {et} after [{' ; '.join(history)}]: Integrate_e of the same field differs from {src} by "
+                                 f"{np.abs(got - want).max() if got.shape == want.shape else 'shape ' + str(got.shape)}", ident)
+                        continue
+                    if law is not None:
+                        builtin = np.asarray(Operators.Bilinear.LinearizedElasticity(g, law.C, mt))
+                        if builtin.shape != got.shape or not (np.abs(got - builtin).max() <= 1e-9 * (1 + np.abs(builtin).max())):
+                            res.fail("form on a mesh moved in place differs from the built-in operator", f"{nm} on {et} after [{' ; '.join(history)}]: differs from LinearizedElasticity on the current mesh by {np.abs(got - builtin).max() if got.shape == builtin.shape else 'shape'}", ident)
+                    conn = np.asarray(g.connect)
+                    asm = (conn[:, :, None] * c + np.arange(c)).reshape(g.Ne, -1)
+                    dense = np.zeros((g.Ncoords * c,) * 2)
+                    for e in range(g.Ne):
+                        dense[np.ix_(asm[e], asm[e])] += want[e]
+                    if Asp.shape != dense.shape or not (np.abs(np.asarray(Asp.todense()) - dense).max() <= 1e-9 * (1 + np.abs(dense).max())):
+                        res.fail("Assemble on a mesh moved in place is not the scatter-add", f"{nm} on {et} after [{' ; '.join(history)}]", ident)
+        except Exception as ex:  # noqa: BLE001
+            res.fail("moved-mesh scenario raises", f"{type(ex).__name__}: {str(ex)[:200]}", dict(elemType=et))
+
+    # ---------------- direct sparse assembly on meshes with more than 2**16 unknowns ----------------
+    from scipy.sparse import coo_matrix
+    from EasyFEA import ElemType
+    from EasyFEA.Geoms import Domain
+    for et, n, c in ((("TRI3", 280, 1), ("QUAD4", 200, 2)) if not thorough else (("TRI3", 280, 1), ("QUAD4", 200, 2), ("TRI3", 150, 3), ("QUAD4", 420, 1))):
+        ident = dict(elemType=et, domain="unit square, organised", cells_per_side=n, dof_n=c)
+        try:
+            mesh = Domain((0, 0), (1, 1), 1 / n).Mesh_2D([], ElemType(et), isOrganised=True)
+            M.affine(mesh, [[1.5, 0.25, 0], [0.0, 0.75, 0], [0, 0, 1]], [0.5, 0.0, 0.0])
+            g = mesh.groupElem
+            Ndof = g.Ncoords * c
+            ident["Ndof"] = int(Ndof)
+            conn = np.asarray(g.connect).astype(np.int64)
+            asm = (conn[:, :, None] * c + np.arange(c)).reshape(g.Ne, -1)
+            rows = np.repeat(asm, asm.shape[1], axis=1).ravel()
+            cols = np.tile(asm, (1, asm.shape[1])).ravel()
+            w = np.repeat(np.cos(3 * mesh.coord[:, 0]) + mesh.coord[:, 1] ** 2, c) + np.tile(np.arange(c), g.Ncoords)
+            if c == 1:
+                todo = [("grad.grad + 3 u*v", MatrixType.mass, BiLinearForm(lambda u, v: u.grad.dot(v.grad) + 3.0 * u * v),
+                         lambda: np.asarray(Operators.Bilinear.GradUGradV(g, 1.0, MatrixType.mass)) + np.asarray(Operators.Bilinear.UV(g, 3.0, 1, MatrixType.mass)))]
+            else:
+                todo = [("7 u.v", MatrixType.mass, BiLinearForm(lambda u, v: 7.0 * u.dot(v)), lambda: np.asarray(Operators.Bilinear.UV(g, 7.0, c, MatrixType.mass)))]
+            for nm, mt, form, builtin in todo:
+                res.case((et, "large", nm, n, c))
+                res.count("large-mesh")
+                Asp = form.Assemble(Field(g, c, mt)).tocsr()
+                want_e = builtin()
+                ref = coo_matrix((want_e.ravel(), (rows, cols)), shape=(Ndof, Ndof)).tocsr()
+                scale = 1 + abs(ref).max()
+                if Asp.shape != ref.shape or not (abs(Asp - ref).max() <= 1e-9 * scale):
+                    res.fail("Assemble is not the scatter-add on a large mesh", f"{nm} on {et} with {Ndof} unknowns: the assembled matrix differs from the scatter-add of the built-in element matrices by "
+                             f"{abs(Asp - ref).max() if Asp.shape == ref.shape else 'shape'} (nnz {Asp.nnz} vs {ref.nnz})", ident)
+                elif not (np.abs(Asp @ w - ref @ w).max() <= 1e-9 * (1 + np.abs(ref @ w).max())):
+                    res.fail("Assemble is not the scatter-add on a large mesh", f"{nm} on {et} with {Ndof} unknowns: A w differs", ident)
+        except Exception as ex:  # noqa: BLE001
+            res.fail("large-mesh assembly raises", f"{type(ex).__name__}: {str(ex)[:200]}", ident)
+
+    # ---------------- heat conduction on a plate placed in space (2D mesh, 3D coordinates) with thickness != 1, and on a bar ----------------
+    from EasyFEA import Mesh as _MeshC
+    for et in (["TRI3", "QUAD4"] if not thorough else ["TRI3", "TRI6", "QUAD4", "QUAD8"]):
+        ident = dict(elemType=et, mode="thermal-static on a plate rotated by 30 degrees about the x-axis", thickness=0.5)
+        res.case((et, "plate-in-space"))
+        res.count("plates-in-space")
+        try:
+            mp_ = M.mesh_2d(et, 2.0, 1.0, 0.5)
+            mp_.Rotate(30.0, (0.0, 0.0, 0.0), (1, 0, 0))
+            mp_ = _MeshC(mp_.dict_groupElem)      # a mesh object built on the moved groups: it knows it lives in 3D
+            kc_ = 2.0
+            refp = Simulations.Thermal(mp_, Models.Thermal(kc_, 1.0, thickness=0.5))
+            simp = Simulations.WeakForms(mp_, Models.WeakForms(Field(mp_.groupElem, 1), BiLinearForm(lambda u, v: kc_ * u.grad.dot(v.grad)), thickness=0.5))
+            Kr_, Kw_ = refp.Get_K_C_M_F()[0].toarray(), simp.Get_K_C_M_F()[0].toarray()
+            if not (np.abs(Kr_ - Kw_).max() <= 1e-9 * np.abs(Kr_).max()):
+                res.fail("weak-form conduction matrix differs from Thermal on a plate in space", f"max |K_thermal - K_weakform| / |K| = {np.abs(Kr_ - Kw_).max() / np.abs(Kr_).max():.3e} (inDim = {mp_.inDim}, dim = {mp_.dim})", ident)
+            sols_ = []
+            for s_ in (refp, simp):
+                unk_ = s_.Get_unknowns()[:1]
+                s_.add_dirichlet(mp_.Nodes_Conditions(lambda x, y, z: x == 0), [0.0], unk_)
+                s_.add_surfLoad(mp_.nodes, [1.0], unk_)
+                sols_.append(np.asarray(s_.Solve(), dtype=float).ravel().copy())
+            if not (np.abs(sols_[0] - sols_[1]).max() <= 1e-9 * np.abs(sols_[0]).max()):
+                res.fail("weak-form heat solution differs from Thermal on a plate in space", f"max |T_thermal - T_weakform| = {np.abs(sols_[0] - sols_[1]).max():.3e} for max |T| = {np.abs(sols_[0]).max():.3e}", ident)
+        except Exception as ex:  # noqa: BLE001
+            res.fail("plate-in-space scenario raises", f"{type(ex).__name__}: {str(ex)[:160]}", ident)
+
     # ---------------- WeakForms simulations vs dedicated simulations ----------------
     for et in (["TRI6", "QUAD4"] if not thorough else ["TRI3", "TRI6", "QUAD4", "QUAD8", "TETRA4", "HEXA8"]):
         dim = M.dim_of(et)
-        mesh = M.mesh_of(et)
-        left = mesh.Nodes_Conditions(lambda x, y, z: x == 0)
-        right = mesh.Nodes_Conditions(lambda x, y, z: x == 2.0)
         thick = 0.5 if dim == 2 else 1.0
         for mode in ("thermal-static", "thermal-parabolic", "elastic-static", "elastic-hyperbolic", "elastic-hyperbolic, damping given by the mass form"):
             if mode.endswith("mass form") and dim == 3:
@@ -282,6 +426,9 @@ def main():
             if et == "QUAD8" and not mode.endswith("static"):
                 continue   # reduced 'rigi' rule: a single field cannot reproduce the two quadratures of the dedicated simulation
             ident = dict(elemType=et, mode=mode, thickness=thick)
+            mesh = M.mesh_of(et)
+            left = mesh.Nodes_Conditions(lambda x, y, z: x == 0)
+            right = mesh.Nodes_Conditions(lambda x, y, z: x == 2.0)
             try:
                 if mode.startswith("thermal"):
                     kc, cc, rho = 2.0, 3.0, 1.5
@@ -290,13 +437,16 @@ def main():
                     fK = Field(mesh.groupElem, 1, MatrixType.mass if mode.endswith("parabolic") else MatrixType.rigi)
                     wf = Models.WeakForms(fK, BiLinearForm(lambda u, v: kc * u.grad.dot(v.grad)), computeC=BiLinearForm(lambda u, v: rho * cc * u * v), thickness=thick)
                     sim = Simulations.WeakForms(mesh, wf)
-                    for s_, unk in ((ref, "t"), (sim, "u")):
-                        if mode.endswith("parabolic"):
-                            s_.Solver_Set_Parabolic_Algorithm(0.25, 0.5)
-                        s_.add_dirichlet(left, [0.0], [unk])
-                        s_.add_dirichlet(right, [1.5], [unk])
-                        s_.Solve()
-                    a, b = np.asarray(ref.thermal), np.asarray(sim.u)
+                    def solve_all(ref=ref, sim=sim, mode=mode):
+                        for s_, unk in ((ref, "t"), (sim, "u")):
+                            s_.Bc_Init()
+                            if mode.endswith("parabolic"):
+                                s_.Solver_Set_Parabolic_Algorithm(0.25, 0.5)
+                            s_.add_dirichlet(left, [0.0], [unk])
+                            s_.add_dirichlet(right, [1.5], [unk])
+                            s_.Solve()
+                        return np.array(ref.thermal), np.array(sim.u)
+                    a, b = solve_all()
                 else:
                     lam, mu, rho = 1.25, 0.75, 2.0
                     law = Models.Elastic.Isotropic(dim, E=mu * (3 * lam + 2 * mu) / (lam + mu), v=lam / (2 * (lam + mu)), planeStress=False, thickness=thick)
@@ -313,21 +463,40 @@ def main():
                         ref.Set_Rayleigh_Damping_Coefs(1.0, 0.0)     # C = M
                     sim = Simulations.WeakForms(mesh, wf)
                     unk = ["x", "y", "z"][:dim]
-                    for s_ in (ref, sim):
-                        if mode.endswith("hyperbolic") or shared:
-                            s_.Solver_Set_Hyperbolic_Algorithm(0.125)
-                        s_.add_dirichlet(left, [0.0] * dim, unk)
-                        s_.add_dirichlet(right, [0.05], ["x"])
-                        s_.Solve()
-                    a, b = np.asarray(ref.displacement), np.asarray(sim.u)
+
+                    def solve_all(ref=ref, sim=sim, mode=mode, shared=shared, unk=unk, dim=dim):
+                        for s_ in (ref, sim):
+                            s_.Bc_Init()
+                            if mode.endswith("hyperbolic") or shared:
+                                s_.Solver_Set_Hyperbolic_Algorithm(0.125)
+                            s_.add_dirichlet(left, [0.0] * dim, unk)
+                            s_.add_dirichlet(right, [0.05], ["x"])
+                            s_.Solve()
+                        return np.array(ref.displacement), np.array(sim.u)
+                    a, b = solve_all()
             except Exception as ex:  # noqa: BLE001
                 res.fail(f"weak-form simulation raises mode={mode}", f"{type(ex).__name__}: {str(ex)[:150]}", ident)
                 continue
             res.case((et, mode))
             res.count("simulation:" + mode)
             tol = 1e-9   # static: the 'rigi' rule of the dedicated simulation; transient: one field = one quadrature, the 'mass' rule (exact for these stiffnesses)
-            if a.shape != b.shape or np.abs(a - b).max() > tol * (1 + np.abs(a).max()):
+            if a.shape != b.shape or not (np.abs(a - b).max() <= tol * (1 + np.abs(a).max())):
                 res.fail(f"weak-form simulation differs mode={mode}", f"solution differs from the dedicated simulation by {np.abs(a - b).max():.2e} on {et}", ident)
+                continue
+            # the same two simulations solved again after the mesh was stretched and turned in place (same nodes, same connectivity)
+            ident = dict(ident, history=["Solve", "mesh.coord = coord @ A.T + t (in place)", "Bc_Init, same conditions, Solve"])
+            Amove = np.eye(3)
+            Amove[:dim, :dim] = np.array([[2.5, -0.5, 0.0], [0.75, 1.0, 0.25], [0.0, -0.25, 1.5]])[:dim, :dim]
+            try:
+                M.affine(mesh, Amove, [0.25, -0.5, 0.0])
+                a, b = solve_all()
+            except Exception as ex:  # noqa: BLE001
+                res.fail(f"weak-form simulation raises after the mesh moved mode={mode}", f"{type(ex).__name__}: {str(ex)[:150]}", ident)
+                continue
+            res.case((et, mode, "second solve on the moved mesh"))
+            res.count("simulation, second solve on the moved mesh:" + mode)
+            if a.shape != b.shape or not (np.abs(a - b).max() <= tol * (1 + np.abs(a).max())):
+                res.fail(f"weak-form simulation differs after the mesh moved mode={mode}", f"second solve, after the mesh was moved in place: solution differs from the dedicated simulation by {np.abs(a - b).max():.2e} on {et}", ident)
 
     answers = driver.ask(lines)
     if answers is None:
@@ -340,7 +509,7 @@ def main():
             except Exception:  # noqa: BLE001
                 res.disagree("element-form", dict(ident, model=ans[:80]))
                 continue
-            if np.abs(model - real).max() > 1e-10 * (1 + np.abs(real).max()):
+            if not (np.abs(model - real).max() <= 1e-10 * (1 + np.abs(real).max())):
                 res.disagree("element-form", dict(ident, maxdiff=float(np.abs(model - real).max())))
     res.search_note = "user forms, built-in operators, the independent evaluation and the dedicated simulations agree on the sampled meshes"
     res.write("affinely distorted meshes of every element type, 'rigi' and 'mass' quadratures, scalar and vector fields: user forms vs UV / GradUGradV / GradU_A_GradV (non-symmetric A) / "
